@@ -97,13 +97,18 @@ def array_frame(r) -> str:
         if code == "0009":
             els.append(f"{z}{r.choice(['00', '01'])}FF")
         elif code == "000A":
-            els.append(f"{z}{r.choice(['00', '10', '08', '18'])}{r.randrange(500, 2100):04X}{r.randrange(2100, 3500):04X}")
+            if r.random() < 0.15:  # a zone the controller has, but without a configuration (the documented null element)
+                els.append(f"{z}007FFF7FFF")
+            else:
+                els.append(f"{z}{r.choice(['00', '10', '08', '18'])}{r.randrange(500, 2100):04X}{r.randrange(2100, 3500):04X}")
         elif code in ("2309", "30C9"):
             els.append(f"{z}{t()}")
         elif code == "2249":
-            els.append(f"{z}{r.randrange(500, 3500):04X}{r.randrange(500, 3500):04X}{r.randrange(0, 1440):04X}")
+            sp = lambda: "7FFF" if r.random() < 0.1 else f"{r.randrange(500, 3500):04X}"  # noqa: E731
+            els.append(f"{z}{sp()}{sp()}{r.randrange(0, 1440):04X}")
         elif code == "22C9":
-            els.append(f"{z}{r.randrange(500, 2000):04X}{r.randrange(2000, 3500):04X}01")
+            sp = lambda a, b: "7FFF" if r.random() < 0.1 else f"{r.randrange(a, b):04X}"  # noqa: E731
+            els.append(f"{z}{sp(500, 2000)}{sp(2000, 3500)}01")
         elif code == "3150":
             els.append(f"{z}{r.randrange(0, 201):02X}")
     src = {"2249": "23:100224", "22C9": "02:001107", "3150": "02:001107"}.get(code, "01:145038")
